@@ -1018,11 +1018,11 @@ func ruleAlwaysCancels(r *Run, id string) {
 
 // ruleCtxParamUsed: blocking wire requests made by a function that has a context parameter are bounded by it.
 func ruleCtxParamUsed(r *Run, id string) {
-	r.Begin(id, "requests are bounded by the caller's context: in package iscp, a function that has a context.Context parameter passes a context derived from that parameter to every blocking wire-level request (Send…Request, SendUpstreamMetadata) it makes; passing the stream's or connection's own long-lived context instead makes the call ignore its caller's deadline", 4)
+	r.Begin(id, "requests are bounded by the caller's context: in packages iscp and wire, a function that has a context.Context parameter passes a context derived from that parameter to every blocking wire-level request (Send…Request, SendUpstreamMetadata, sendRequest) it makes; passing the stream's or connection's own long-lived context instead makes the call ignore its caller's deadline", 4)
 	p := r.P
 	n := 0
 	for _, fn := range p.Funcs {
-		if fnPkgPath(fn) != modPath+"/iscp" {
+		if fnPkgPath(fn) != modPath+"/iscp" && fnPkgPath(fn) != modPath+"/wire" {
 			continue
 		}
 		var own []*ssa.Parameter
@@ -1037,7 +1037,7 @@ func ruleCtxParamUsed(r *Run, id string) {
 		name := fnName(fn)
 		allInstrs(fn, func(ins ssa.Instruction) {
 			nm := callName(ins)
-			if !(strings.HasPrefix(nm, "/wire.ClientConn.Send") && (strings.HasSuffix(nm, "Request") || strings.HasSuffix(nm, "Metadata"))) {
+			if !(strings.HasPrefix(nm, "/wire.ClientConn.Send") && (strings.HasSuffix(nm, "Request") || strings.HasSuffix(nm, "Metadata"))) && nm != "/wire.ClientConn.sendRequest" {
 				return
 			}
 			n++
